@@ -14,6 +14,7 @@ pub struct C04;
 const STATUSES: [u16; 17] = [
     100, 101, 199, 200, 201, 204, 205, 299, 300, 304, 400, 404, 499, 500, 599, 600, 999,
 ];
+const STATUS_SWEEP_ITEMS: u64 = 9;
 const LENGTHS_T: [usize; 14] = [0, 1, 2, 8191, 8192, 8193, 16385, 32767, 32768, 32769, 65535, 65536, 65537, 70000];
 const LENGTHS_Q: [usize; 7] = [0, 1, 8192, 8193, 32768, 65536, 70000];
 const TES: [Option<&str>; 7] = [
@@ -419,7 +420,7 @@ impl Check for C04 {
         "exploration"
     }
     fn n_items(&self, tier: Tier) -> u64 {
-        space(tier).size() + l1_space().size() + crate::props::product::n_items(tier)
+        space(tier).size() + l1_space().size() + crate::props::product::n_items(tier) + STATUS_SWEEP_ITEMS
     }
     fn chunk(&self, _tier: Tier) -> u64 {
         2_000
@@ -434,8 +435,23 @@ impl Check for C04 {
             }
         } else if idx < n0 + l1_space().size() {
             l1_run(idx - n0, acc, false);
-        } else {
+        } else if idx < n0 + l1_space().size() + crate::props::product::n_items(tier) {
             crate::props::product::run_item(idx - n0 - l1_space().size(), tier, acc, PRODUCT_CLAUSES);
+        } else {
+            // every status code 100..=999, one item per hundred
+            let hundred = idx - n0 - l1_space().size() - crate::props::product::n_items(tier);
+            for status in (100 + hundred * 100)..(200 + hundred * 100) {
+                for len in [0usize, 5, 40000] {
+                    for declared in [true, false] {
+                        for version in [(1u8, 0u8), (1, 1)] {
+                            for head in [false, true] {
+                                let cfg = Config { status: status as u16, len, declared, threshold: None, version, head, te: None, piece: 0, extra_headers: 0, req_extra: 0 };
+                                run_cfg(&cfg, acc);
+                            }
+                        }
+                    }
+                }
+            }
         }
     }
     fn crash_is_violation(&self) -> bool {
@@ -450,13 +466,15 @@ impl Check for C04 {
             ("raw_print".to_string(), json!({"config": cfg.to_json()}))
         } else if idx < n0 + l1_space().size() {
             ("connection".to_string(), json!({"l1_index": idx - n0}))
-        } else {
+        } else if idx < n0 + l1_space().size() + crate::props::product::n_items(tier) {
             ("product".to_string(), json!({"product_index": idx - n0 - l1_space().size()}))
+        } else {
+            ("status-sweep".to_string(), json!({"status_hundred": idx - n0 - l1_space().size() - crate::props::product::n_items(tier) + 1}))
         }
     }
     fn rule(&self, tier: Tier) -> String {
         let own = format!(
-            "full product status{:?} x body length{:?} x declared/undeclared x threshold{{0,1,len-1,len,len+1,default,usize::MAX}} x version{{1.0,1.1}} x HEAD/GET x TE{:?} x reader piece size{:?} (0=whole, max=irregular cycle, max-1=irregular cycle with a transient Interrupted error before every piece) x extra headers 0..{} x 6 sets of further request headers (Connection: close / keep-alive, Content-Length + Expect, Transfer-Encoding, Range + conditional + Upgrade: none is an input to the framing) = {} responses printed by Response::raw_print (those with whole-piece readers and no extra headers also right after another response printed by the same thread into a writer that breaks after 0 / 17 / 600 / 1500 / 1700 bytes: nothing of a response that could not be sent may reach the next one); each output must be consumed exactly by the independent RFC 7230 client parser, which must recover the status and exactly the body; plus {} responses sent through a real connection (status x length {{0,5,8193,40000}} x declared/undeclared x GET/HEAD/CONNECT/OPTIONS/DELETE/PURGE x HTTP/1.0 keep-alive/1.1 x TE absent/chunked/identity, followed by a second request whose answer must be found right after); non-trivial = body length > 0",
+            "full product status{:?} x body length{:?} x declared/undeclared x threshold{{0,1,len-1,len,len+1,default,usize::MAX}} x version{{1.0,1.1}} x HEAD/GET x TE{:?} x reader piece size{:?} (0=whole, max=irregular cycle, max-1=irregular cycle with a transient Interrupted error before every piece) x extra headers 0..{} x 6 sets of further request headers (Connection: close / keep-alive, Content-Length + Expect, Transfer-Encoding, Range + conditional + Upgrade: none is an input to the framing) = {} responses printed by Response::raw_print (those with whole-piece readers and no extra headers also right after another response printed by the same thread into a writer that breaks after 0 / 17 / 600 / 1500 / 1700 bytes: nothing of a response that could not be sent may reach the next one); and EVERY status code 100..999 x length {{0, 5, 40000}} x declared/undeclared x version x HEAD/GET; each output must be consumed exactly by the independent RFC 7230 client parser, which must recover the status and exactly the body; plus {} responses sent through a real connection (status x length {{0,5,8193,40000}} x declared/undeclared x GET/HEAD/CONNECT/OPTIONS/DELETE/PURGE x HTTP/1.0 keep-alive/1.1 x TE absent/chunked/identity, followed by a second request whose answer must be found right after); non-trivial = body length > 0",
             STATUSES, lengths(tier), TES, pieces(tier), if tier == Tier::Quick { 1 } else { 2 }, space(tier).size(), l1_space().size()
         );
         format!("{} || {} {:?}", own, crate::props::product::RULE, PRODUCT_CLAUSES)
